@@ -655,12 +655,10 @@ impl<'a, C: Crypto + 'a> CaseP<'a, C> {
         &mut self,
         crypto: &C,
         fabric: &Fabric,
+        sigma3_key: CanonAeadKeyRef<'_>,
         signature: CanonPkcSignatureRef<'_>,
         out: &mut [u8],
     ) -> Result<usize, Error> {
-        let mut sigma3_key = AEAD_KEY_ZEROED;
-        self.compute_sigma3_key(crypto, fabric.ipk().op_key(), &mut sigma3_key)?;
-
         let mut tw = WriteBuf::new(out);
 
         tw.start_struct(&TLVTag::Anonymous)?;
@@ -677,7 +675,7 @@ impl<'a, C: Crypto + 'a> CaseP<'a, C> {
         let mut cypher = crypto.aead()?;
 
         cypher.encrypt_in_place(
-            sigma3_key.reference(),
+            sigma3_key,
             SIGMA3_NONCE,
             &[],
             cipher_text,
@@ -685,6 +683,19 @@ impl<'a, C: Crypto + 'a> CaseP<'a, C> {
         )?;
 
         Ok(tw.as_slice().len())
+    }
+
+    /// Derive the Sigma3 key (S3K) from the transcript as it stands now.
+    ///
+    /// The initiator must call this once, before Sigma3 itself is added to the
+    /// transcript, and use the result for every (re)transmission of Sigma3.
+    pub fn sigma3_key(
+        &mut self,
+        crypto: &C,
+        fabric: &Fabric,
+        key: &mut CanonAeadKey,
+    ) -> Result<(), Error> {
+        self.compute_sigma3_key(crypto, fabric.ipk().op_key(), key)
     }
 
     /// Get the Sigma3 decrypted data
